@@ -3,7 +3,8 @@
    every later sub-query with the first on NULL-safe dimension equality, COALESCE of the dimension columns.
    The theorems are about that outer join, for sub-query results of ANY size. *)
 From Coq Require Import ZArith String List Bool.
-Require Import V.Model.Sem V.Model.Single V.Model.Join V.Model.MultiFact V.Proofs.C03_proofs.
+Require Import V.Model.Graph V.Model.Plan V.Gen.MultiFact_gen V.Proofs.C02_symagg_proofs V.Proofs.C03_decision_proofs
+               V.Model.Sem V.Model.Single V.Model.Join V.Model.MultiFact V.Proofs.C03_proofs.
 Import ListNotations.
 
 (* metrics of TWO models: the groups of the joint result are exactly the union of the groups of the two sub-queries, each once *)
@@ -31,6 +32,17 @@ Proof. exact outer2_exact. Qed.
 
 (* known finding C03-K3: with metrics of THREE models every later sub-query is joined to the FIRST one only: a group the first
    sub-query lacks is returned twice, and a real NULL group is glued to a row whose first side is merely missing *)
+(* WHEN THE MULTI-FACT FORM IS TAKEN, regenerated: Gen/MultiFact_gen.v holds the verdict of SQLGenerator._needs_preaggregation_for_fanout on 2744
+   scripted scenarios (eight metric lists over three models incl. graph-level names; for each pair of models one of seven join-path patterns or no
+   path), extracted from generator.py on every run by executing the method's AST (translator/gen_multifact.py, fail closed, validated against
+   CPython).  The decision function gives the same verdict on every scenario, and it is the planning model's `needs_multifact` for any graph and
+   query -- the branch Model/MultiFact.v (and C03_union, C03_values_first, C03_values_second) describes is taken exactly then. *)
+Theorem C03_multifact_table : forallb multifact_row_ok multifact_rows = true.
+Proof. exact multifact_table_ok. Qed.
+Theorem C03_multifact_is_plan_decision : forall g q,
+  needs_multifact g q = multifact_model (map (fun m => Some (pmt_model m)) (pq_metrics q)) (path_types g).
+Proof. exact plan_multifact_is_model. Qed.
+
 Example C03_three_way_refuted :
   outer_rows 1 [1; 1; 1] [sA; sB; sC] =
     [ ([VStr "x"], [RVal (VInt 1); RVal (VInt 2); RVal VNull]);
